@@ -36,8 +36,22 @@ C04 == {[calls |-> <<a, b>>, rel |-> "fifo"] : a \in C04First, b \in C04Second}
                               c \in Variants({"Rpc", "QC"}, {"FFF"}, {0, 1})}
              ELSE {})
 
+\* C05 / C18: every call kind x every way a call can end: all replies, quorum
+\* before all replies (a late reply after the call returned), exhaustion by
+\* handler errors, cancellation while handlers are pending, alone and followed
+\* by a second call on the same nodes
+DC(m, nsw, beh, cancel) == [m |-> m, nsw |-> nsw, beh |-> beh, mgr |-> 0, k |-> 2, cancel |-> cancel]
+C18Calls == {DC(m, nsw, beh, cn) : m \in Methods, nsw \in BOOLEAN, beh \in {"FFF", "FFS", "EEF", "EEE", "SSS", "FSS"},
+                                    cn \in {"", "issued"}}
+            \ {d \in [m : Methods, nsw : {TRUE}, beh : {"FFF", "FFS", "EEF", "EEE", "SSS", "FSS"}, mgr : {0}, k : {2},
+                        cancel : {"", "issued"}] : d.m \notin OneWay}
+C18 == {[calls |-> <<a>>, rel |-> "fifo"] : a \in C18Calls}
+       \cup {[calls |-> <<a, DC(m2, FALSE, "FFF", "")>>, rel |-> r] : a \in C18Calls, m2 \in {"Rpc", "QC", "CorrStream"},
+                                                                       r \in {"fifo", "lifo"}}
+       \cup (IF Len3 THEN {[calls |-> <<a, b>>, rel |-> "lifo"] : a \in C18Calls, b \in C18Calls} ELSE {})
+
 VARIABLE prog
-Init == prog \in (IF Family = "C03" THEN C03 ELSE C04)
+Init == prog \in (CASE Family = "C03" -> C03 [] Family = "C04" -> C04 [] OTHER -> C18)
 Next == UNCHANGED prog
 Spec == Init /\ [][Next]_prog
 Emit == CSVWrite("%1$s", <<ToJson(prog)>>, IOEnv.GEN_OUT)
